@@ -47,5 +47,7 @@ man = {
     'notes': 'see DESIGN.md; known_findings.json lists genuine defects recorded rather than repaired',
     'not_applicable': na,
 }
+missing = [p for p in props if p not in registry.MANIFEST]
+assert not missing, 'registry.MANIFEST has no entry for %s (every property is claimed; a lost entry is an editing accident)' % missing
 json.dump(man, open(os.path.join(HERE, 'MANIFEST.json'), 'w'), indent=1)
 print('checks:', [c['property_id'] for c in checks], 'n/a:', len(na))
